@@ -77,7 +77,8 @@ def relabel (names : List String) (t : T) : Gotree.C05.Res T :=
 
     for _, n := range t.Nodes() {
         if (tips && n.Tip()) || (internals && !n.Tip()) {
-            name := n.Name(); first := name[0]; last := name[len(name)-1]      // index out of range on ""
+            name := n.Name(); if name == "" { continue }                       // since 763a2ae
+            first := name[0]; last := name[len(name)-1]
             firstpos, lastpos := 0, len(name)
             if first == '\'' || first == '"' { firstpos = 1 }
             if last  == '\'' || last  == '"' { lastpos-- }
@@ -124,9 +125,10 @@ end
 
 def quotes (add internals tips : Bool) (t : T) : Gotree.C05.Res T :=
   let sel := fun (isTip : Bool) => (tips && isTip) || (internals && !isTip)
-  if (selNames sel false t).any (fun n => (quoteName add n).isNone) then .panic "index or slice bounds out of range"
+  -- nodes without a name are skipped (763a2ae); a name that is a single quote character still slices [1:0]
+  if (selNames sel false t).any (fun n => n != "" && (quoteName add n).isNone) then .panic "slice bounds out of range"
   else
-    let t' := mapSel sel (fun n => (quoteName add n).getD n) false t
+    let t' := mapSel sel (fun n => if n == "" then n else (quoteName add n).getD n) false t
     if hasDupS t'.tipNames then .err "Cannot create a tip index when several tips have the same name" else .ok t'
 
 /- ### ShuffleTips (tree/tree.go:1027)
@@ -293,9 +295,14 @@ inductive EditOp where
   | rename (m : List (String × String))  -- Tree.Rename(map), keys pairwise distinct
   | reinit                               -- Tree.ReinitIndexes() (not an edit: offered between edits)
   | relabel (names : List String)        -- any renaming: RenameAuto, RenameRegexp, ShuffleTips
-  | quotes (add internals tips : Bool)   -- Tree.AddQuotes / Tree.RemoveQuotes (panics on an empty name: not a success)
+  | quotes (add internals tips : Bool)   -- Tree.AddQuotes / Tree.RemoveQuotes (nodes without a name are skipped)
   | shuffle (draws : List Nat)           -- Tree.ShuffleTips(), the draws of rand.Perm given
   | renameAuto (internals tips : Bool) (length : Nat)   -- Tree.RenameAuto(internals, tips, length, &1, {})
+  | clearLengths (internal external : Bool)             -- Tree.ClearLengths
+  | clearSupports                                       -- Tree.ClearSupports
+  | clearComments                                       -- Tree.ClearComments
+  | scaleLengths (x : Rat) (internal external : Bool)   -- Tree.ScaleLengths
+  | roundLengths0 (internal external : Bool)            -- Tree.RoundLengths(0, …)
   deriving Repr
 
 def applyOp : EditOp → T → Res T
@@ -366,6 +373,11 @@ def applyOp : EditOp → T → Res T
   | .quotes add internals tips, t => quotes add internals tips t
   | .shuffle draws, t => shuffle draws t
   | .renameAuto internals tips length, t => renameAuto internals tips length t
+  | .clearLengths i x, t => .ok (clearLengths i x t)
+  | .clearSupports, t => .ok (clearSupports t)
+  | .clearComments, t => .ok (clearComments t)
+  | .scaleLengths q i x, t => .ok (scaleLengths q i x t)
+  | .roundLengths0 i x, t => .ok (roundLengths0 i x t)
 
 /-- a history: stops at the first operation that does not report success -/
 def runOps : T → List EditOp → Res T
